@@ -20,6 +20,11 @@ def render(c):
         word, env = "$PV", {"PV": pay}
     elif d == "bvar":
         word, env = "${PV}", {"PV": pay}
+    elif d == "envsub":
+        # the value reaches the word through a reference INSIDE the command of an embedded substitution: it is data of that command
+        word, env = "z$(echo $PV)", {"PV": pay}
+    elif d == "envbq":
+        word, env = "z`echo ${PV}`", {"PV": pay}
     elif d == "dsub":
         word, vh = "$(vout 1)", {"out.1": pay + "\n"}
     elif d == "bqsub":
@@ -60,7 +65,7 @@ def judge(rep, c, line, b, a, files, res):
     raw = pay
     if c["del"] in ("var2", "dsub2"):
         pay = pay + "z"
-    elif c["del"] == "var2r":
+    elif c["del"] in ("var2r", "envsub", "envbq"):
         pay = "z" + pay
     pay = c.get("pre", "") + pay
     feat = {"pre": c.get("pre", ""), "del": c["del"], "q": c["q"], "pos": c["pos"], "pay": raw, "pay_is_amp": raw == "&", "chars": sorted(set(pay) & set("|&;<>#"))}
@@ -121,6 +126,8 @@ def runner(rep, tier, seed, replay):
     ds = [c for c in base if c["del"] == "dsub"]
     for k in range(min(len(vs), len(ds), 40 if tier == "quick" else 400)):
         cases.append(dict(vs[k], pair=ds[-1 - k]["pay"]))
+    cases += [dict(c, **{"del": ("envsub" if k % 2 == 0 else "envbq")}) for k, c in enumerate(cases)
+              if c["del"] == "var" and not c.get("realin") and c.get("pair") is None and chars(c["pay"]).strip() == chars(c["pay"]) and chars(c["pay"]) != ""]
     log("[C13] %d cases" % len(cases))
     jobs, meta = [], []
     for c in cases:
